@@ -87,7 +87,8 @@ def run(ctx, only=None):
     ctx.disagreements_checked = len(bad)
     ctx.suite("eventlog", cases=len(cases), executions=nexec, compared=len(exprs),
               disagreements=len(bad), monitor_failures=len(fails), **tot)
-    if not only:
+    # a broken implementation distorts the distribution; coverage is only demanded of quiet runs
+    if not only and not fails and not bad:
         for c, m in (("cursor_ahead", 10), ("late_events_below_cursor", 5), ("cursor_now", 5), ("terminal_mid_log", 5),
                      ("events_after_terminal", 3), ("resolve_now", 3), ("base_subs", 5), ("filtered_streams", 3),
                      ("internal_events", 5), ("subclass_terminals", 3), ("limited_queries", 3), ("ticks", 10)):
